@@ -1,10 +1,65 @@
 (* Props/C20.v — property theorems only. *)
-From Verif Require Import Base.Str Expand.ArithSyntax Expand.Arith Proofs.ArithProofs.
+From Verif Require Import Base.Str Expand.ArithSyntax Expand.Arith Proofs.ArithSyntaxProofs Proofs.ArithProofs.
+
+(* The parser realises exactly the precedence/associativity table: printing any parser-producible
+   tree with the parentheses the table requires (and no others) and parsing the tokens gives the
+   tree back; the inserted nodes are only ParenArithm (strip removes them). *)
+Theorem C20_parse_print : forall e, wf e = true ->
+  parse_tokens (print_min e) = Some (Some (min_paren e), []) /\ strip (min_paren e) = strip e.
+Proof. exact parse_print_min. Qed.
+Print Assumptions C20_parse_print.
+
+Theorem C20_parse_print_wp : forall e, wp e = true -> parse_tokens (print e) = Some (Some e, []).
+Proof. exact parse_print_wp. Qed.
+Print Assumptions C20_parse_print_wp.
+
+(* the operator lists the Go chain passes to arithmExprBinary are the left-associative rows of the table *)
+Theorem C20_level_table : forall o k, op_in o (level_ops k) = true <->
+  (prec o = k /\ is_assign o = false /\ rassoc o = false /\ o <> TernColon).
+Proof. exact level_ops_table. Qed.
+Print Assumptions C20_level_table.
 
 (* "variables whose values are themselves expressions": refuted on the faithful model
-   (known finding arith_var_holds_expression): x='1+2'; $((x)) is 0 in expand.Arithm, 3 in bash. *)
+   (known finding arith_var_holds_expression): x='1+2'; $((x)) is 0 in expand.Arithm, 3 in bash.
+   Full statement that fails:  forall e en, wf e -> arithm e en = bash_eval e en. *)
 Theorem C20_eval_matches_refuted :
   exists e en, wf e = true /\ no_index e = true /\
     snd (bash_eval e en) = BV 3%Z /\ snd (arithm e en) = Ok 0%Z.
 Proof. exact eval_matches_refuted. Qed.
 Print Assumptions C20_eval_matches_refuted.
+
+(* never panics on any tree the parser can produce *)
+Theorem C20_no_panic : forall e en, wf e = true -> snd (arithm e en) <> Panic.
+Proof. exact no_panic. Qed.
+Print Assumptions C20_no_panic.
+
+(* division / modulo by zero and negative exponents are errors in both *)
+Theorem C20_errors_div_zero : forall o x y en en1 en2 l,
+  o = Quo \/ o = Rem -> arithm x en = (en1, Ok l) -> arithm y en1 = (en2, Ok 0%Z) ->
+  arithm (Bin o x y) en = (en2, Err EDivZero).
+Proof. exact div_zero_impl. Qed.
+Print Assumptions C20_errors_div_zero.
+
+Theorem C20_errors_div_zero_bash : forall var o x y en en1 en2 l,
+  o = Quo \/ o = Rem -> bash_step var x en = (en1, BV l) -> bash_step var y en1 = (en2, BV 0%Z) ->
+  bash_step var (Bin o x y) en = (en2, BE EDivZero).
+Proof. exact div_zero_spec. Qed.
+Print Assumptions C20_errors_div_zero_bash.
+
+Theorem C20_errors_neg_exp : forall x y en en1 en2 l r,
+  arithm x en = (en1, Ok l) -> arithm y en1 = (en2, Ok r) -> (r < 0)%Z ->
+  arithm (Bin Pow x y) en = (en2, Err ENegExp).
+Proof. exact neg_exp_impl. Qed.
+Print Assumptions C20_errors_neg_exp.
+
+Theorem C20_errors_neg_exp_bash : forall var x y en en1 en2 l r,
+  bash_step var x en = (en1, BV l) -> bash_step var y en1 = (en2, BV r) -> (r < 0)%Z ->
+  bash_step var (Bin Pow x y) en = (en2, BE ENegExp).
+Proof. exact neg_exp_spec. Qed.
+Print Assumptions C20_errors_neg_exp_bash.
+
+Theorem C20_errors_div_zero_assign : forall o name y en en1,
+  o = QuoAssgn \/ o = RemAssgn -> arithm y en = (en1, Ok 0%Z) ->
+  arithm (Bin o (Word name) y) en = (en1, Err EDivZero).
+Proof. exact div_zero_assign_impl. Qed.
+Print Assumptions C20_errors_div_zero_assign.
